@@ -159,18 +159,30 @@ def record_traces(ips, rng, n_traces, sizes, factors):
             before = json.dumps(obj._R.bit_generator.state, sort_keys=True, default=str)
             do_op(obj, op)
             evs.append(event(proj, obj, op, None if op == "add_row" else before))
-        traces.append(dict(variant=variant, req=req, f=f, nx=proj.nx, slen=proj.slen, seed=seed, events=evs))
+        traces.append(dict(variant=variant, req=req, f=f, nx=proj.nx, slen=proj.slen, seed=seed, params=list(params), events=evs))
     return traces, skipped
 
 
-def validate_traces(run, traces, label):
+def rerecord(ips, t):
+    """execute the operations of a stored trace again on the current code (same class, parameters and seed)"""
+    obj = build(ips, t["variant"], t["req"], t["f"], tuple(t.get("params", PARAMS[0])), t["seed"])
+    proj = Projector(obj, t["seed"])
+    evs = [event(proj, obj, "new")]
+    for e in t["events"][1:]:
+        before = json.dumps(obj._R.bit_generator.state, sort_keys=True, default=str)
+        do_op(obj, e["op"])
+        evs.append(event(proj, obj, e["op"], None if e["op"] == "add_row" else before))
+    return dict(t, nx=proj.nx, slen=proj.slen, events=evs)
+
+
+def validate_traces(run, traces, label, require=("TraceAddRow", "TraceRead", "TraceRepr")):
     tmp = tempfile.mkdtemp(prefix="aoverif-c05-")
     try:
         path = os.path.join(tmp, "traces.json")
         with open(path, "w") as fh:
             json.dump(traces, fh)
         r = run.tlc("InfScreenTrace", "InfScreenTrace.cfg", label=label, env={"TRACE_FILE": path}, workers=4,
-                    require_actions=("TraceAddRow", "TraceRead", "TraceRepr"), timeout=3000)
+                    require_actions=require, timeout=3000)
     finally:
         shutil.rmtree(tmp, ignore_errors=True)
     reached = {}
@@ -247,11 +259,12 @@ def run(run):
     from harness.checks import c04
     stab = []
     for nn, ncol in ((4, 2), (6, 2), (5, 3)) if quick else ((4, 2), (6, 2), (5, 3), (8, 2), (12, 2), (9, 4)):
-        rho, res = c04.vk_stability(ips, nn, ncol, PARAMS[0])
-        stab.append(dict(n=nn, ncol=ncol, spectral_radius=rho, stationarity_residual=res))
-        if not (rho < 1 - 1e-9) or res > 1e-4:
-            run.violation("infinite_screen:vk-recursion-not-stable-at-von-karman-covariance", stab[-1],
-                          dict(kind="stability", n=nn, ncol=ncol))
+        for prm in (PARAMS[0], (PARAMS[0][0], PARAMS[0][1] * 2.5, PARAMS[0][2])):       # the second one: same geometry, another r0
+            rho, res = c04.vk_stability(ips, nn, ncol, prm)
+            stab.append(dict(n=nn, ncol=ncol, params=list(prm), spectral_radius=rho, stationarity_residual=res))
+            if not (rho < 1 - 1e-9) or res > 1e-4:
+                run.violation("infinite_screen:vk-recursion-not-stable-at-von-karman-covariance", stab[-1],
+                              dict(kind="stability", n=nn, ncol=ncol))
     run.aux["vk_stability"] = stab
     run.aux.update(mode_a_histories=n, mode_b_traces=len(traces), mode_b_rejected=len(rejected),
                    mode_b_events=sum(len(t["events"]) for t in traces), constructions_skipped=skipped)
@@ -273,7 +286,7 @@ def replay(run, case):
             run.violation("infinite_screen:vk-recursion-not-stable-at-von-karman-covariance", dict(rho=rho, res=res), case)
         return
     if case.get("kind") == "trace":
-        _, rejected = validate_traces(run, [case["trace"]], "InfScreenTrace/replay")
+        _, rejected = validate_traces(run, [rerecord(ips, case["trace"])], "InfScreenTrace/replay", require=())
         for tid, l in rejected:
             run.violation("infinite_screen:trace-rejected", dict(position=l), case)
         return
